@@ -180,6 +180,18 @@ def merge_val(c, a, b):
         if na.eq(nb):
             return a
         return ObjRef(a.name, a.cls, z3.If(c, na, nb))       # the pointer may have been reset on one branch only
+    if isinstance(a, ObjRef) and isinstance(b, ObjRef) and a.name != b.name:
+        # a pointer that is null on one path and refers to an object on the other: the name of a null pointer means nothing
+        an = a.null is not None and z3.is_true(z3.simplify(a.null))
+        bn = b.null is not None and z3.is_true(z3.simplify(b.null))
+        if bn and not an:
+            na = a.null if a.null is not None else z3.BoolVal(False)
+            return ObjRef(a.name, a.cls, z3.If(c, na, z3.BoolVal(True)))
+        if an and not bn:
+            nb_ = b.null if b.null is not None else z3.BoolVal(False)
+            return ObjRef(b.name, b.cls, z3.If(c, z3.BoolVal(True), nb_))
+        if an and bn:
+            return a
     if isinstance(a, (Opaque, VoidV)) and isinstance(b, (Opaque, VoidV)):
         return a
     return None
